@@ -65,8 +65,10 @@ func genCase(rng *rand.Rand, n int, pErr, pPanic float64) *pipeCase {
 		switch {
 		case r < pErr:
 			c.Outcome[s] = "err"
-		case r < pErr+pPanic:
+		case r < pErr+pPanic/2:
 			c.Outcome[s] = "panic"
+		case r < pErr+pPanic:
+			c.Outcome[s] = "planpanic"
 		default:
 			c.Outcome[s] = "ok"
 		}
@@ -121,7 +123,14 @@ func runPipeCase(rec *trace.Recorder, c *pipeCase, seed int64, free bool) pipeRe
 		return stagepkg.NewVerifStage(ctx, &stagepkg.VerifScript{
 			ID:     s,
 			Async:  c.Async[s],
-			PlanFn: func() stagepkg.PlanNode { return node },
+			PlanFn: func() stagepkg.PlanNode {
+				if c.Outcome[s] == "planpanic" {
+					// Plan() runs on the goroutine of the caller of executeStage (the parent's thread)
+					rec.Emit("Exec", trace.F{"s": s, "outcome": "planpanic"})
+					panic("plan kaboom " + s)
+				}
+				return node
+			},
 			Next: func() []stagepkg.Stage {
 				sc.Yield(owner(s), "next:"+s)
 				var out []stagepkg.Stage
@@ -206,7 +215,7 @@ func pipelineMain(args []string) int {
 	distinct := map[string]bool{}
 	for i := 0; i < *n; i++ {
 		k := 1 + rng.Intn(*maxStages)
-		pe, pp := 0.2, 0.15
+		pe, pp := 0.2, 0.2
 		if i%4 == 0 {
 			pe, pp = 0.0, 0.0
 		}
